@@ -426,7 +426,7 @@ class G:
                 com = r.choice([" -- note", "  --x", " --! doc", "\t-- tail ; end process", " -- \"q\" 'c'"])
             if self.comments and r.random() < 0.08:
                 out.append(ind + r.choice(["-- own line comment", "--", "-- end if; begin", "---------------", "/* block */"]))
-            if self.comments and r.random() < 0.04:
+            if self.comments and r.random() < 0.09:
                 # a block comment: 3-5 consecutive comment lines, short / punctuation-only headers and footers included
                 edge = ["---", "--=", "--+", "--", "--!", "--------------------", "--====", "-- x", "--|"]
                 out.append(ind + r.choice(edge))
